@@ -17,6 +17,24 @@ type verifKV struct {
 	missing map[string]bool
 	failing map[string]bool // per-key commands on these keys are answered with an error
 	lastFailed bool
+	cluster bool // answer like a cluster node: a multi-key read whose keys hash to different slots is refused
+}
+
+func verifSlotOf(k string) uint16 {
+	c := cmds.NewBuilder(cmds.InitSlot).Get().Key(k).Build()
+	return c.Slot()
+}
+
+func (s *verifKV) crossSlot(keys []string) bool {
+	if !s.cluster {
+		return false
+	}
+	for _, k := range keys[1:] {
+		if verifSlotOf(k) != verifSlotOf(keys[0]) {
+			return true
+		}
+	}
+	return false
 }
 
 func (s *verifKV) get(k string) RedisMessage {
@@ -29,12 +47,18 @@ func (s *verifKV) get(k string) RedisMessage {
 func (s *verifKV) answer(argv []string) RedisResult {
 	switch argv[0] {
 	case "MGET":
+		if s.crossSlot(argv[1:]) {
+			return verifErrReply("CROSSSLOT Keys in request don't hash to the same slot")
+		}
 		vs := make([]RedisMessage, 0, len(argv)-1)
 		for _, k := range argv[1:] {
 			vs = append(vs, s.get(k))
 		}
 		return NewResult(slicemsg(typeArray, vs), nil)
 	case "JSON.MGET":
+		if s.crossSlot(argv[1 : len(argv)-1]) {
+			return verifErrReply("CROSSSLOT Keys in request don't hash to the same slot")
+		}
 		vs := make([]RedisMessage, 0, len(argv)-2)
 		for _, k := range argv[1 : len(argv)-1] {
 			vs = append(vs, s.get(k))
@@ -55,8 +79,16 @@ func (s *verifKV) answer(argv []string) RedisResult {
 	return NewResult(strmsg(typeSimpleString, "OK"), nil)
 }
 
-func VerifC31_helpers() {
+func VerifC31_helpers() { verifC31(false) }
+
+// VerifC31_grouping: the per-slot grouping of the cluster read helpers alone, with longer key lists.
+func VerifC31_grouping() { verifC31(true) }
+
+func verifC31(grouping bool) {
 	n := 1 + verifChoose(verifParam("max_keys", 3))
+	if grouping {
+		n = verifParam("max_keys", 4)
+	}
 	keys := make([]string, n)
 	srv := &verifKV{val: map[string]string{}, missing: map[string]bool{}, failing: map[string]bool{}}
 	for i := range keys {
@@ -71,7 +103,7 @@ func VerifC31_helpers() {
 	// the client: a real singleClient over a stub connection, or the generic (cluster) path
 	var client Client
 	var sent func() [][]string
-	if verifChoose(2) == 0 {
+	if !grouping && verifChoose(2) == 0 {
 		sc := &verifStubConn{}
 		sc.do = func(ctx context.Context, cmd Completed) RedisResult { return srv.answer(cmd.Commands()) }
 		client = newSingleClientWithConn(sc, cmds.NewBuilder(cmds.NoSlot), false, verifChoose(2) == 1, newRetryer(defaultRetryDelayFn), false)
@@ -80,6 +112,7 @@ func VerifC31_helpers() {
 	} else {
 		vc := &verifClient{slot: cmds.InitSlot}
 		vc.answer = srv.answer
+		srv.cluster = true
 		client = vc
 		sent = func() [][]string { return vc.log }
 		verifReach("generic")
@@ -128,7 +161,13 @@ func VerifC31_helpers() {
 	for _, k := range keys {
 		kvs[k] = "val"
 	}
-	switch verifChoose(8) {
+	helper := 0
+	if grouping {
+		helper = 2 * verifChoose(2)
+	} else {
+		helper = verifChoose(8)
+	}
+	switch helper {
 	case 0:
 		checkGet(MGet(client, ctx, keys))
 	case 1:
